@@ -105,6 +105,9 @@ def _worker(args):
             check_raw(alg, 32, pat("C", pl, 3), ts[0], 16)
         for extra in (1, 512, 1023):
             check_raw(alg, 32, pw8, ts[0], 24, extra)
+        # pass counts around the widths an implementation could narrow the pass index to (8 and 16 bits), at the minimum memory
+        for t in (5, 16, 17, 127, 128, 129, 255, 256, 257, 258, 511, 513) + ((32767, 32769, 65535, 65536, 65537) if thorough or alg == ALG_ID else (65537,)):
+            check_raw(alg, 32, pw8, t, 8 if t % 2 else 9)
     # ---- limits ----
     def expect_fail(name, r):
         nonlocal n
